@@ -155,26 +155,28 @@ theorem build_keeps {m m' : Manifest} {t : Txn} (hb : build m t = .ok m') (hF : 
     split at hb
     · cases hb
     · rename_i g0 hg0
-      cases hb
-      refine ⟨faithful_of_frame hb' hF hB ?_, ?_, ?_⟩
-      · intro i' hi'
-        refine ⟨i', hi', rfl, rfl, fun f hf => ⟨hf, ?_⟩⟩
-        rintro ⟨hff, c, hc, hcF⟩
-        subst hff
-        have : replUnsafe m f0 p = true := by
-          simp only [replUnsafe, List.any_eq_true, Bool.and_eq_true]
-          refine ⟨i', hi', by simpa using hf, ?_⟩
-          simp only [inter, List.any_eq_true]
-          exact ⟨c, hcF, by simpa using hc⟩
-        rw [hsafe] at this; cases this
-      · intro f hf
-        simp only
-        split
-        · rename_i hff
+      split at hb
+      · cases hb
+      · cases hb
+        refine ⟨faithful_of_frame hb' hF hB ?_, ?_, ?_⟩
+        · intro i' hi'
+          refine ⟨i', hi', rfl, rfl, fun f hf => ⟨hf, ?_⟩⟩
+          rintro ⟨hff, c, hc, hcF⟩
           subst hff
-          rw [hB.1 _ hf] at hg0; cases hg0
-        · exact hB.1 f hf
-      · exact hB.2
+          have : replUnsafe m f0 p = true := by
+            simp only [replUnsafe, List.any_eq_true, Bool.and_eq_true]
+            refine ⟨i', hi', by simpa using hf, ?_⟩
+            simp only [inter, List.any_eq_true]
+            exact ⟨c, hcF, by simpa using hc⟩
+          rw [hsafe] at this; cases this
+        · intro f hf
+          simp only
+          split
+          · rename_i hff
+            subst hff
+            rw [hB.1 _ hf] at hg0; cases hg0
+          · exact hB.1 f hf
+        · exact hB.2
   | reserve n =>
     have hb' := hb
     simp [build] at hb; subst hb
